@@ -278,7 +278,7 @@ def inst_assign(blocks, spec, vkind, masked_value=False):
             cost *= 3 * (2 if (s[2] or 1) < 0 else 1) * abs(s[2] or 1)
     return Instance(f"setitem[blocks={nm},idx={spec},value={vkind}{',masked value' if masked_value else ''}]", body,
                     dict(blocks=blocks, index=spec, value=vkind, masked_value=masked_value),
-                    unit="setitem_array_expr + parse_assignment_indices", api_replay=api, cost=cost * max(blocks), wall_s=900)
+                    unit="setitem_array_expr + parse_assignment_indices", api_replay=api, cost=cost * max(blocks), wall_s=1800)
 
 
 def inst_where_out(rank, owndata):
